@@ -12,6 +12,13 @@ pub struct Limits {
     pub max_idle_ms: u64,
     pub max_ack_delay_ms: u64,
     pub send_buffer: u64,
+    /// active_connection_id_limit transport parameter this endpoint declares (0 = library default)
+    pub active_cid_limit: u64,
+    /// per-endpoint overrides of the connection-id provider (0 = inherit the global setting);
+    /// rotate_handshake_cid: 1 = off, 2 = on
+    pub cid_lifetime_ms: u64,
+    pub cid_len: u64,
+    pub rotate_handshake_cid: u64,
 }
 
 impl Default for Limits {
@@ -28,6 +35,10 @@ impl Default for Limits {
             max_idle_ms: 0,
             max_ack_delay_ms: 0,
             send_buffer: 0,
+            active_cid_limit: 0,
+            cid_lifetime_ms: 0,
+            cid_len: 0,
+            rotate_handshake_cid: 0,
         }
     }
 }
@@ -69,16 +80,47 @@ pub struct Cfg {
     pub stop_after: u64,
     /// application close by the client at this virtual time (0 = never)
     pub close_at_ms: u64,
-    /// rebind the client's address at this time (0 = never)
-    pub rebind_at_ms: u64,
+    /// rebind the client's address at these virtual times (ms); empty = never
+    pub rebind_at_ms: Vec<u64>,
+    /// 0: a rebind changes the port only; 1: changes the IP address; 2: alternates
+    pub rebind_ip: u64,
+    /// custom deterministic connection-id provider (used when any of the three is set):
+    /// lifetime of every generated id (0 = none), id length (0 = 16), rotation of the handshake id (-1 = default)
+    pub cid_lifetime_ms: u64,
+    pub cid_len: u64,
+    pub rotate_handshake_cid: i64,
+    /// the client keeps the connection open until this virtual time (ms), writing one small
+    /// stream every `tick_ms` (0 = no hold phase)
+    pub hold_ms: u64,
+    pub tick_ms: u64,
+    /// also trace datagrams the ENDPOINT could not route to a connection
+    /// (`ev <t> <ep> - transport:endpoint_datagram_dropped …`; off by default)
+    pub endpoint_drops: bool,
     /// watchdog: scenario is abandoned at this virtual time
     pub deadline_ms: u64,
     /// adversarial-peer attack name (client rewrites its own cleartext payloads) and trigger
     pub attack: String,
     pub attack_at: u64,
+    /// packet-number space whose (attack_at+1)-th packet is rewritten: app (default) | initial | handshake
+    pub attack_space: String,
+    /// which endpoint plays the adversarial peer: c (default; the victim is the server) | s
+    pub attacker: String,
     /// record cleartext payloads (hex) in the trace
     pub payloads: bool,
     pub events: bool,
+    /// datagrams that belong to no connection, sent from a third (attacker) address to the server:
+    /// `unknown-cid-short` | `unknown-version-long` | `vn-packet` | `tiny` | `mix` ("" = none)
+    pub inject_kind: String,
+    /// per-mille rate of such injections per network round with traffic
+    pub inject_kind_pm: u64,
+    /// size of the injected datagram (0 = cycle through the boundary sizes)
+    pub inject_size: usize,
+    /// strays per network round (each delivered one microsecond after the previous one)
+    pub inject_burst: u64,
+    /// how many leading bytes of each datagram are recorded in `wire` lines
+    pub wire_head: usize,
+    /// enable stateless resets on the server (keyed token generator); off = s2n-quic default
+    pub sreset: bool,
 }
 
 impl Default for Cfg {
@@ -111,12 +153,27 @@ impl Default for Cfg {
             stop_stream: -1,
             stop_after: 0,
             close_at_ms: 0,
-            rebind_at_ms: 0,
+            rebind_at_ms: vec![],
+            rebind_ip: 0,
+            cid_lifetime_ms: 0,
+            cid_len: 0,
+            rotate_handshake_cid: -1,
+            hold_ms: 0,
+            tick_ms: 1000,
+            endpoint_drops: false,
             deadline_ms: 600_000,
             attack: String::new(),
             attack_at: 0,
+            attack_space: "app".into(),
+            attacker: "c".into(),
             payloads: true,
             events: true,
+            inject_kind: String::new(),
+            inject_kind_pm: 0,
+            inject_size: 0,
+            inject_burst: 1,
+            wire_head: 48,
+            sreset: false,
         }
     }
 }
@@ -134,6 +191,10 @@ fn lim(l: &mut Limits, k: &str, v: u64) -> bool {
         "max_idle_ms" => l.max_idle_ms = v,
         "max_ack_delay_ms" => l.max_ack_delay_ms = v,
         "send_buffer" => l.send_buffer = v,
+        "active_cid_limit" => l.active_cid_limit = v,
+        "cid_lifetime_ms" => l.cid_lifetime_ms = v,
+        "cid_len" => l.cid_len = v,
+        "rotate_handshake_cid" => l.rotate_handshake_cid = v,
         _ => return false,
     }
     true
@@ -192,16 +253,68 @@ impl Cfg {
                 "stop_stream" => c.stop_stream = n()? as i64,
                 "stop_after" => c.stop_after = n()?,
                 "close_at_ms" => c.close_at_ms = n()?,
-                "rebind_at_ms" => c.rebind_at_ms = n()?,
+                "rebind_at_ms" => {
+                    for part in v.split(',').filter(|p| !p.is_empty()) {
+                        let t = part.parse::<u64>().map_err(|_| format!("bad rebind time {part}"))?;
+                        if t > 0 {
+                            c.rebind_at_ms.push(t);
+                        }
+                    }
+                    c.rebind_at_ms.sort();
+                }
+                "rebind_ip" => c.rebind_ip = n()?,
+                "cid_lifetime_ms" => c.cid_lifetime_ms = n()?,
+                "cid_len" => c.cid_len = n()?,
+                "rotate_handshake_cid" => c.rotate_handshake_cid = n()? as i64,
+                "hold_ms" => c.hold_ms = n()?,
+                "tick_ms" => c.tick_ms = n()?.max(1),
+                "endpoint_drops" => c.endpoint_drops = n()? != 0,
                 "deadline_ms" => c.deadline_ms = n()?,
                 "attack" => c.attack = v.to_string(),
                 "attack_at" => c.attack_at = n()?,
+                "attack_space" => match v {
+                    "app" | "initial" | "handshake" => c.attack_space = v.to_string(),
+                    _ => return Err(format!("bad attack_space {v}")),
+                },
+                "attacker" => match v {
+                    "c" | "s" => c.attacker = v.to_string(),
+                    _ => return Err(format!("bad attacker {v}")),
+                },
                 "payloads" => c.payloads = n()? != 0,
                 "events" => c.events = n()? != 0,
+                "inject_kind" => c.inject_kind = v.to_string(),
+                "inject_kind_pm" => c.inject_kind_pm = n()?,
+                "inject_size" => c.inject_size = n()? as usize,
+                "inject_burst" => c.inject_burst = n()?,
+                "wire_head" => c.wire_head = n()? as usize,
+                "sreset" => c.sreset = n()? != 0,
                 _ => return Err(format!("unknown key {k}")),
             }
         }
         Ok(c)
+    }
+
+    /// the connection-id provider settings of one endpoint: None = keep the library default provider
+    pub fn cid_format(&self, l: &Limits) -> Option<(usize, Option<u64>, bool)> {
+        let lifetime = if l.cid_lifetime_ms > 0 { l.cid_lifetime_ms } else { self.cid_lifetime_ms };
+        let len = if l.cid_len > 0 { l.cid_len } else { self.cid_len };
+        let rotate = match l.rotate_handshake_cid {
+            1 => Some(false),
+            2 => Some(true),
+            _ => match self.rotate_handshake_cid {
+                0 => Some(false),
+                1 => Some(true),
+                _ => None,
+            },
+        };
+        if lifetime == 0 && len == 0 && rotate.is_none() {
+            return None;
+        }
+        Some((
+            if len == 0 { 16 } else { len as usize },
+            if lifetime == 0 { None } else { Some(lifetime) },
+            rotate.unwrap_or(true),
+        ))
     }
 
     pub fn echo(&self) -> String {
